@@ -116,6 +116,19 @@ CLAIMED["C10"] = dict(
     technique="Coq proof (ranges partition, canonical sorting, dict insert semantics) + in-Coq correspondence of every metadata accessor",
     design="8 C10")
 
+CLAIMED["C11"] = dict(
+    text="Entry-wise Gallina definitions of every built-in coding matrix for symbolic n. Theorems for EVERY n: columns sum to zero (sum, Helmert in "
+         "four variants, difference in both directions, polynomial), K.[1|C] = I for the textbook coefficient matrix K (treatment with any base incl. "
+         "SAS, sum, difference), Helmert columns are orthogonal with norms (c+1)(c+2) / (n-c-1)(n-c), the polynomial coding is the monic orthogonal "
+         "family of the recorded three-term recurrence with unit columns, the full coding is the identity, indicator x coding = row selection. "
+         "Model = implementation on every coding-matrix cell for n <= 12/40 and on encoded data vectors; shape, inverse, textbook K, dense = sparse, "
+         "R constructions, names and metadata are also evaluated directly on the implementation.",
+    note="Coq kernel + vm_compute; numpy/scipy linear algebra (inv, sqrt, matmul) observed not modelled; polynomial cells compared within 2^-24 relative, "
+         "divided Helmert/difference cells within 2^-40",
+    technique="Coq proof for symbolic n (sums over index functions, Qc field reasoning for the three-term recurrence) + in-Coq correspondence of coding "
+              "matrices and encodings + direct numeric oracle on the implementation",
+    design="8 C11")
+
 CLAIMED["C17"] = dict(
     text="Coq: in the materializer's three-layer context a name resolves to data, then context, then transforms, and the reported source is the layer that "
          "supplied it (all layer contents/overlaps); '.' is exactly the available variables not used on the lhs, in order; for formulas of looked-up "
